@@ -122,6 +122,7 @@ pub(crate) fn register<K>(name: K, actor: ActorCell) -> Result<(), ActorRegistry
 where
     K: Into<String>,
 {
+    verif_point!("registry:register");
     match get_actor_registry().entry(name.into()) {
         Occupied(occupied) => Err(ActorRegistryErr::AlreadyRegistered(occupied.key().clone())),
         Vacant(vacancy) => {
@@ -136,6 +137,7 @@ pub(crate) fn unregister<K>(name: K)
 where
     K: AsRef<str>,
 {
+    verif_point!("registry:unregister");
     if let Some(reg) = ACTOR_REGISTRY.get() {
         let _ = reg.remove(name.as_ref());
     }
